@@ -22,6 +22,13 @@ from typing import Any, Callable, Dict, List, Optional, Tuple
 US = 1_000_000
 
 
+import contextvars
+
+# which simulated client's task is running (task-local, inherited by child tasks): sockets created by library code
+# are attributed to it even if connect() yields before creating them
+TAG: "contextvars.ContextVar[Any]" = contextvars.ContextVar("sim_tag", default=None)
+
+
 class SimDeadlock(Exception):
     """Nothing is runnable, nothing is pending and the loop waits forever."""
 
@@ -63,6 +70,7 @@ class Sim:
         self.current_owner: Any = None
         self.tick_ns = 0
         self.clock_reads = 0
+        self.clock_log: List[float] = []
         self.harness_fault: Optional[str] = None
         self.iteration_hooks: List[Callable[[], None]] = []
         self.wall_watchers: List[Callable[[], None]] = []
@@ -228,7 +236,7 @@ class FakeSocket:
         self.peer: Optional[Tuple[str, int]] = None
         self.owner = "app"       # "app" sockets are created by code under test
         self.owner_id = sim.current_owner   # which simulated actor's call is in progress (e.g. ("bridge", 1))
-        self.tag = sim.next_tag  # who (which simulated client) asked for this socket
+        self.tag = sim.next_tag if sim.next_tag is not None else TAG.get()   # which simulated client asked for it
         sim.next_tag = None
         if self.tag is not None:
             self.tag.on_socket(self)
@@ -739,6 +747,7 @@ class SimContext:
                 sim.clock_reads += 1
                 sim.skew_ns += sim.tick_ns
                 trav._destination_timestamp_ns = sim.wall_ns()
+                sim.clock_log.append(trav._destination_timestamp_ns / 1e9)
                 return trav._destination_timestamp_ns
             trav.time_ns = ticking_time_ns
         # loop (created before the socket shim: its self-pipe is a real socketpair)
